@@ -626,7 +626,11 @@ func mergeCases(path string, batches []*batch, n int) error {
 			}
 		}
 	}
-	return w.Flush()
+	fmt.Fprintf(w, "ENDFILE %d\n", n)
+	if err := w.Flush(); err != nil {
+		return err
+	}
+	return cf.Sync()
 }
 
 func sortedKeys(m map[string]int) []string {
